@@ -1,0 +1,25 @@
+//go:build verif
+
+package utils
+
+import "sync/atomic"
+
+// VerifHook is installed by the verification harness (build tag verif only).
+// It is called at named yield points so that a harness can order goroutines.
+var verifHook atomic.Pointer[func(point string, args ...any)]
+
+// SetVerifHook installs (or, with nil, removes) the yield-point hook.
+func SetVerifHook(fn func(point string, args ...any)) {
+	if fn == nil {
+		verifHook.Store(nil)
+		return
+	}
+	verifHook.Store(&fn)
+}
+
+// VerifYield marks a yield point. Without the verif build tag it is a no-op.
+func VerifYield(point string, args ...any) {
+	if fn := verifHook.Load(); fn != nil {
+		(*fn)(point, args...)
+	}
+}
